@@ -291,7 +291,15 @@ pub fn run_rootops(cfgs: &[String], out_dir: &Path) -> Value {
     let mut n = 0u64;
     for cfg in cfgs {
         let mut ops = vec![];
+        let mut twinpairs: Vec<Value> = vec![];
         let mut rec = |op: &str, c: &str| ops.push(json!({"op":op,"c":c}));
+        let clsb = |r: Result<VfsResult<bool>, ()>| -> String {
+            match r {
+                Err(()) => "panic".into(),
+                Ok(Err(_)) => "err".into(),
+                Ok(Ok(b)) => format!("ok:{b}"),
+            }
+        };
         let fresh = || {
             let w = build(cfg);
             let _ = w.root.join("a").and_then(|p| p.create_dir());
@@ -309,6 +317,21 @@ pub fn run_rootops(cfgs: &[String], out_dir: &Path) -> Value {
                 rec(&format!("{} then exists", $name), cls(guard(|| root.exists())));
                 rec(&format!("{} then read_dir", $name), cls(guard(|| root.read_dir().map(|it| it.count()))));
                 rec(&format!("{} then create_file", $name), cls(guard(|| root.join("g").and_then(|p| p.create_file().map(|mut h| h.write_all(b"z"))))));
+                // C07 on the root itself: the same call on P of the underlying filesystem of an identical second
+                // world has the same outcome, and afterwards both answer the same about their root
+                let w1 = fresh();
+                let w2 = fresh();
+                if let (Some(_), Some(u2)) = (&w1.under, &w2.under) {
+                    let r1 = w1.root.clone();
+                    let peer = if u2.prefix.is_empty() { u2.root.clone() } else { u2.root.join(u2.prefix.join("/")).unwrap() };
+                    let probe = |r: &VfsPath, c: &'static str| -> Value {
+                        json!([c, clsb(guard(|| r.exists())), clsb(guard(|| r.is_dir())), cls(guard(|| r.read_dir().map(|it| it.count()))),
+                               clsb(guard(|| r.join("a").and_then(|p| p.exists()))), cls(guard(|| r.join("g").and_then(|p| p.create_dir())))])
+                    };
+                    let c1 = cls(guard(|| $f(&r1)));
+                    let c2 = cls(guard(|| $f(&peer)));
+                    twinpairs.push(json!({"op": $name, "alt": probe(&r1, c1), "under": probe(&peer, c2)}));
+                }
             }};
         }
         on_fresh!("create_dir(root)", |r: &VfsPath| r.create_dir());
@@ -369,6 +392,7 @@ pub fn run_rootops(cfgs: &[String], out_dir: &Path) -> Value {
             }
         }
         out.begin(&json!({"ev":"hostile","kindtag":"rootops","cfg":cfg,"arg":"<operations with the root as target or destination>","prefix":[],
+            "twinpairs": twinpairs,
             "join":{"c":"ok","path":""},"ops":ops,"ucalls":[],"outside_before":[],"outside_after":[],"leak":false,"shape":{"dotdot":false,"dslash":false,"abs":false}}));
         n += 1;
     }
